@@ -181,6 +181,11 @@ ALLOC = dict(
     modifies=[],
     returns=Int,
     native_setup=nat_fix,
+    # the controller's own look-ups by handle are followed when the allocation goes through them: the two loops over
+    # the ACL tables by their contract proved below (callee view: None only if no LE / classic entry has the handle),
+    # the dict look-up of the CIS tables in place.  Whatever look-ups are used, the post stays "in none of the five tables".
+    uses=['bumble.controller:Controller.find_connection_by_handle@callee'],
+    inline=['Controller.find_iso_link_by_handle'],
 )
 contract('bumble.controller:Controller.allocate_connection_handle', prop='C06', **ALLOC)
 
